@@ -13,16 +13,17 @@ use crate::tree::*;
 use std::collections::BTreeMap;
 use xot::{Node, Value, Xot};
 
+fn ser_one(st: &Store, h: Handle) -> Result<String, String> {
+    let n = st.known[&h];
+    match guard(|| st.xot.to_string(n)) {
+        Ok(Ok(s)) => Ok(s),
+        Ok(Err(e)) => Err(match e { xot::Error::MissingPrefix(_) => "MissingPrefix".to_string(), xot::Error::NamespaceInProcessingInstruction => "NamespaceInPI".into(), o => format!("{:?}", o).split('(').next().unwrap().to_string() }),
+        Err(()) => Err("PANIC".into()),
+    }
+}
+
 fn ser_all(st: &Store) -> Vec<(Handle, Result<String, String>)> {
-    st.roots().iter().map(|r| {
-        let n = st.known[r];
-        let s = match guard(|| st.xot.to_string(n)) {
-            Ok(Ok(s)) => Ok(s),
-            Ok(Err(e)) => Err(match e { xot::Error::MissingPrefix(_) => "MissingPrefix".to_string(), xot::Error::NamespaceInProcessingInstruction => "NamespaceInPI".into(), o => format!("{:?}", o).split('(').next().unwrap().to_string() }),
-            Err(()) => Err("PANIC".into()),
-        };
-        (*r, s)
-    }).collect()
+    st.roots().iter().map(|r| (*r, ser_one(st, *r))).collect()
 }
 
 fn ser_text(v: &[(Handle, Result<String, String>)]) -> String {
@@ -87,7 +88,11 @@ fn has_redundant_default_over_attribute(xot: &Xot, root: Node) -> bool {
 }
 
 /// text written by to_string must reparse to the same content (expanded names, attributes, values, order)
-fn check_faithful(case: &str, k: usize, st: &Store, sers: &[(Handle, Result<String, String>)], out: &mut Out, stats: &mut Stats) {
+fn check_faithful(case: &str, k: usize, st: &Store, sers: &[(Handle, Result<String, String>)], out: &mut Out, stats: &mut Stats) { check_faithful_as(case, k, st, sers, false, out, stats) }
+
+/// `subtree`: the serialised node sits inside a tree; the declarations it inherits are written on it, so declarations are not
+/// compared, only names, attributes and content
+fn check_faithful_as(case: &str, k: usize, st: &Store, sers: &[(Handle, Result<String, String>)], subtree: bool, out: &mut Out, stats: &mut Stats) {
     for (h, s) in sers {
         let root = st.known[h];
         match s {
@@ -111,7 +116,15 @@ fn check_faithful(case: &str, k: usize, st: &Store, sers: &[(Handle, Result<Stri
                 match parse_fresh(text, frag) {
                     Parsed::Ok { xot: x2, root: r2, .. } => {
                         let why = if is_doc { compare_exact(&st.xot, probe, &x2, r2, true) } else {
-                            match x2.document_element(r2) { Ok(e2) => compare_exact(&st.xot, probe, &x2, e2, true), Err(_) => Some("no document element".into()) }
+                            match x2.document_element(r2) {
+                                Ok(e2) if subtree => {
+                                    let ca: Vec<String> = canon(&st.xot, probe).into_iter().filter(|t| !t.starts_with('N')).collect();
+                                    let cb: Vec<String> = canon(&x2, e2).into_iter().filter(|t| !t.starts_with('N')).collect();
+                                    if ca == cb { None } else { let i = ca.iter().zip(cb.iter()).position(|(x, y)| x != y).unwrap_or(ca.len().min(cb.len())); Some(format!("source has {:?} where the reparsed tree has {:?} (position {}, declarations left out)", ca.get(i), cb.get(i), i)) }
+                                }
+                                Ok(e2) => compare_exact(&st.xot, probe, &x2, e2, true),
+                                Err(_) => Some("no document element".into()),
+                            }
                         };
                         if let Some(why) = why {
                             out.fail(case, "written-name-means-something-else", &format!("step {}: root {} is written as {:?}, which reads back differently: {}", k, hs(*h), text, why));
@@ -209,6 +222,16 @@ pub fn main_for(pid: &str) {
                 if !documented_panic(&op) { out.fail(&case, "panic", &format!("step {}: `{}` panicked", step, op_str(&op))); }
             }
             check_faithful(&case, step + 1, &st, &sers, &mut out, &mut stats);
+            // elements inside a tree too: a subtree is written with the declarations in scope that its names need, so what
+            // is written must read back with the same expanded names (oracle only; not part of the observation)
+            {
+                let inner: Vec<Handle> = st.live_handles().into_iter().filter(|h| st.xot.is_element(st.known[h]) && st.xot.parent(st.known[h]).is_some()).collect();
+                if !inner.is_empty() {
+                    let sub: Vec<(Handle, Result<String, String>)> = (0..3).map(|_| { let h = *r.pick(&inner); (h, ser_one(&st, h)) }).collect();
+                    stats.add("c10.subtrees_serialised", sub.len() as u64);
+                    check_faithful_as(&case, step + 1, &st, &sub, true, &mut out, &mut stats);
+                }
+            }
             match &op {
                 Op::Cmp(h) => {
                     let target = st.known[h];
